@@ -980,9 +980,12 @@ def library_traces(ck, qr, numpy):
     if eskip:
         ck.note("%d example scripts touch more than 60 managed objects and "
                 "were not validated" % eskip)
+    if repotests.RAN[0] < 12:
+        raise MachineryFailure("only %d example scripts were run" %
+                               repotests.RAN[0])
     if len(etraces) < 4:
-        raise MachineryFailure("only %d example scripts produced basis "
-                               "events" % len(etraces))
+        ck.note("only %d example scripts produced basis events" %
+                len(etraces))
     rej = ck.validate_traces("BasisTrace", "BasisTrace.cfg", etraces,
                              workers=8)
     if rej:
